@@ -25,16 +25,18 @@ def _verdicts(A):
             for k, vs in A.acc.items()}
 
 
-def analyse(f, types):
-    """{(line, text): (verdict, detail)} for one function"""
-    DS = fx.FxAnalyzer(f, types, soft=True).run()
+def analyse(f, types, state_ids=None, inv=None, post=None, inv_hard=None, post_hard=None):
+    """{(line, text): (verdict, detail)} for one function.  inv / post: the invariant of the state fields proved for
+    the family, assumed at entry and after calls into the family (inv_hard: the same, inferred without type ranges,
+    for the runs a report may rest on)."""
+    DS = fx.FxAnalyzer(f, types, soft=True, state_ids=state_ids, entry_fields=inv, callee_post=post).run()
     ds = _verdicts(DS)
     out = {}
     if all(v == "inside" for v in ds.values()):
         return {k: ("inside", None) for k in ds}, DS.truncated
-    DH = fx.FxAnalyzer(f, types, soft=False).run()
-    KH = fx.FxAnalyzer(f, types, soft=False).run_classic()
-    KS = fx.FxAnalyzer(f, types, soft=True).run_classic()
+    DH = fx.FxAnalyzer(f, types, soft=False, state_ids=state_ids, entry_fields=inv_hard, callee_post=post_hard).run()
+    KH = fx.FxAnalyzer(f, types, soft=False, state_ids=state_ids, entry_fields=inv_hard, callee_post=post_hard).run_classic()
+    KS = fx.FxAnalyzer(f, types, soft=True, state_ids=state_ids, entry_fields=inv, callee_post=post).run_classic()
     dh, kh, ks = _verdicts(DH), _verdicts(KH), _verdicts(KS)
     for k in ds:
         if ds[k] == "inside" or ks.get(k) == "inside":
@@ -46,7 +48,92 @@ def analyse(f, types):
     return out, (DS.truncated or DH.truncated or KH.truncated or KS.truncated)
 
 
+def state_families(prog):
+    """{(unit, record): [(function, ids of the variables holding the state pointer)]} for the records that are private
+    to one .c file (state structures laid over a `void* state`, or passed to static helpers by their type)"""
+    from . import c14, sb
+    stt = c14.state_types(prog)
+    fam = {}
+    for f in prog.all_funcs():
+        if f.body is None:
+            continue
+        for pi, rn in (stt.get(f.name) or {}).items():
+            rec = prog.records.get(rn)
+            if pi < 0 or rec is None or not ir.relpath(rec.get("file") or "").startswith("src/"):
+                continue           # only structures private to the implementation (src/**/*.c, src/**/*_lcl.h)
+            fam.setdefault((ir.relpath(rec["file"]), rn), []).append((f, sb.state_aliases(f, pi)))
+    return fam
+
+
+def field_writers(prog):
+    """{(record, field): [(function, id of the base variable or None)]} for every store to a structure field"""
+    out = {}
+    for f in prog.all_funcs():
+        if f.body is None:
+            continue
+        for n in ir.walk(f.body):
+            tgt = None
+            if n.get("k") == "Bin" and n.get("op") in ir.ASSIGN_OPS:
+                tgt = n["x"]
+            elif n.get("k") == "Un" and n.get("op") in ("pre++", "pre--", "post++", "post--", "&"):
+                tgt = n["e"]
+            while isinstance(tgt, dict) and tgt.get("k") in ("Paren", "Cast"):
+                tgt = tgt["e"]
+            if isinstance(tgt, dict) and tgt.get("k") == "Member" and tgt.get("rec"):
+                b = ir.strip(tgt["b"])
+                bid = b.get("id") if isinstance(b, dict) and b.get("k") == "Ref" and tgt.get("arrow") else None
+                out.setdefault((tgt["rec"], tgt["f"]), []).append((f.name, bid))
+    return out
+
+
+def infer_invariant(members, types, rec, writers=None, soft=True):
+    """interval invariant of the integer fields of one state family, by assume/guarantee over its functions:
+    base = the functions that set a field on every path whatever it was (the Start functions); step = every function,
+    entered with the fields inside the invariant and with its family callees guaranteeing it, leaves them inside.
+    Returns ({field: (lo, hi)}, rounds); a field without a base or without a stable bound is absent."""
+    fields = [fd["n"] for fd in rec.get("fields", []) if fd.get("size") in (1, 2, 4, 8) and not fd.get("p") and not fd.get("count")]
+    if writers is not None:
+        # a field that is also stored to (or whose address is taken) outside the family, or through something other
+        # than the family's state pointers, has no invariant here
+        idsof = {f.name: ids for f, ids in members}
+        fields = [fl for fl in fields if all(fn in idsof and bid in idsof[fn] for fn, bid in writers.get((rec["n"], fl), []))]
+    if not fields:
+        return {}, 0
+    names = {f.name for f, _ in members}
+    base = {}
+    for f, ids in members:
+        A = fx.FxAnalyzer(f, types, soft=soft, state_ids=ids).run()
+        for fl, v in (A.exit_fields or {}).items():
+            if fl in fields and v[0] is not None and v[1] is not None:
+                base[fl] = v if fl not in base else fx.iv_hull(base[fl], v)
+    inv = dict(base)
+    rounds = 0
+    while inv and rounds < 8:
+        rounds += 1
+        post = {n: inv for n in names}
+        new = dict(inv)
+        for f, ids in members:
+            A = fx.FxAnalyzer(f, types, soft=soft, state_ids=ids, entry_fields=inv, callee_post=post).run()
+            ex = A.exit_fields
+            if ex is None:
+                continue          # no exit reached (cannot happen for terminating code)
+            for fl in list(new):
+                v = ex.get(fl)
+                if v is None or v[0] is None or v[1] is None:
+                    del new[fl]
+                else:
+                    new[fl] = fx.iv_hull(new[fl], v)
+        if new == inv:
+            return inv, rounds
+        # a bound that moved twice is not an invariant of this shape
+        if rounds >= 4:
+            new = {fl: v for fl, v in new.items() if inv.get(fl) == v}
+        inv = new
+    return inv, rounds
+
+
 def _types(prog):
+    fx.PROTO_OF = lambda name: prog.funcs.get(name) or prog.protos.get(name)
     return fx.Types({"typedefs": list(prog.typedefs.values()), "records": list(prog.records.values())})
 
 
@@ -72,10 +159,24 @@ def check_fixed_extent(res, config, floor):
     types = _types(prog)
     inside = undecided = funcs = 0
     und_sites = []
+    fams = state_families(prog)
+    ctx, invs = {}, {}
+    writers = field_writers(prog)
+    for (unit, rn), members in sorted(fams.items()):
+        inv, rounds = infer_invariant(members, types, prog.records[rn], writers)
+        invh, _ = infer_invariant(members, types, prog.records[rn], writers, soft=False)
+        if inv:
+            invs["%s %s" % (unit, rn)] = {k: list(v) for k, v in sorted(inv.items())}
+        post = {f.name: inv for f, _ in members}
+        posth = {f.name: invh for f, _ in members}
+        for f, ids in members:
+            # a function over two state structures (none on the tree) keeps the first
+            ctx.setdefault((f.relfile, f.name), (ids, inv, post, invh, posth))
     for f in prog.all_funcs():
         if f.body is None:
             continue
-        r, trunc = analyse(f, types)
+        ids, inv, post, invh, posth = ctx.get((f.relfile, f.name), (None, None, None, None, None))
+        r, trunc = analyse(f, types, ids, inv, post, invh, posth)
         if not r:
             continue
         funcs += 1
@@ -98,5 +199,6 @@ def check_fixed_extent(res, config, floor):
     res.floor("SD.f access sites proved inside [%s]" % config, inside, floor)
     res.coverage.setdefault("fixed_extent", {})[config] = {
         "functions_with_accesses": funcs, "sites_inside": inside, "sites_not_decided": undecided,
-        "selftest_functions": n_self, "not_decided_examples": und_sites[:40]}
+        "selftest_functions": n_self, "not_decided_examples": und_sites[:200],
+        "state_families": len(fams), "state_field_invariants": invs}
     return inside, undecided
